@@ -137,6 +137,7 @@ static int cmd_handler(void *arg, void *ev)
 	return 0;
 }
 
+enum How { RUN, QUIET, PROBE };   // full step with oracle / step without oracle (replay of a verified prefix) / enabledness only
 // failure groups of the signatures (the fine group stays in the detail text)
 static std::string coarse(const std::string &g)
 {
@@ -443,14 +444,16 @@ struct BSys {
 		if (asan_error()) { g = "asan"; d = "AddressSanitizer reported an invalid access inside the operation"; return false; }
 		Scan sc; sc.nblocks = 0; memset(sc.tok, 0, sizeof sc.tok);
 		size_t nbuf = 0;
+		std::string newcls[2];
 		for (int h = 0; h < 2; ++h) {
 			if (!hb[h] || (h && hb[1] == hb[0])) continue;
 			if (!is_alloc(hb[h])) { g = "dangling-buffer"; d = fmt("the buffer of handle %d is not allocated (any more)", h); return false; }
 			++nbuf;
 			uintptr_t holders = 1 + (hb[0] == hb[1] ? 1 : 0);
 			if (alloc_refs(hb[h]) != holders) { g = "holder-count"; d = fmt("buffer has %zu holder(s) but its reference count is %zu", (size_t) holders, (size_t) alloc_refs(hb[h])); return false; }
-			sc.cls += fmt("|b%d:", h);
+			sc.cls.clear();
 			scan_buffer(hb[h], sc, 0);
+			newcls[h] = sc.cls;
 			if (asan_error()) { g = "asan"; d = "reading the buffer content faults"; return false; }
 		}
 		if (!sc.g.empty()) { g = sc.g; d = sc.d; return false; }
@@ -471,20 +474,23 @@ struct BSys {
 		}
 		size_t live = ledger_live() - lbase;
 		if (live != nbuf + sc.nblocks) { g = live > nbuf + sc.nblocks ? "leak" : "missing-block"; d = fmt("%zu library allocation(s) live, reachable: %zu buffer(s) + %zu element-owned block(s)", live, nbuf, sc.nblocks); return false; }
-		lastcls = sc.cls;
+		lastcls[0] = newcls[0]; lastcls[1] = newcls[1];
 		return true;
 	}
-	std::string lastcls;
+	std::string lastcls[2];
+	// the two handles are interchangeable: the canonical form orders them
 	std::string canon()
 	{
-		std::string s = fmt("arm=%d fails=%d same=%d", arm, fails_used, hb[0] && hb[0] == hb[1]);
+		std::string s = fmt("arm=%d fails=%d ", arm, fails_used), hs[2];
 		for (int h = 0; h < 2; ++h) {
 			const mpt::buffer *b = hb[h];
-			if (!b) { s += fmt(" h%d:-", h); continue; }
-			s += fmt(" h%d:size=%zu,used=%zu,t=%d,f=%x", h, b->_size, b->_used, traits_id(b->_content_traits), (unsigned) b->get_flags());
+			if (!b) { hs[h] = "-"; continue; }
+			hs[h] = fmt("size=%zu,used=%zu,t=%d,f=%x:", b->_size, b->_used, traits_id(b->_content_traits), (unsigned) b->get_flags()) + lastcls[hb[0] == hb[1] ? 0 : h];
 		}
-		return s + " " + lastcls;
+		if (hb[0] && hb[0] == hb[1]) return s + "both{" + hs[0] + "}";
+		return s + (hs[0] <= hs[1] ? "{" + hs[0] + "} {" + hs[1] + "}" : "{" + hs[1] + "} {" + hs[0] + "}");
 	}
+	bool refresh() { std::string g, d; g_cbgroup.clear(); asan_error(); return oracle(g, d); }
 
 	// ------------------------------------------------------------------ operations
 	std::string stcls(int h) const
@@ -505,7 +511,7 @@ struct BSys {
 		if (b->_content_traits != KT) s += b->_content_traits ? ",other element type" : ",untyped";
 		return s;
 	}
-	bool apply(int opi)
+	bool apply(int opi, int how = RUN)
 	{
 		const OpDef &o = ops[opi];
 		int h = o.h;
@@ -536,11 +542,12 @@ struct BSys {
 		case ARMSLOT: { long p = pos < 0 ? n + pos : pos; if (!b || b->_content_traits != KT || p < 0 || p >= n || ((mpt::command *) (b + 1))[p].cmd) return false; pos = p; break; }
 		case SUBBUF: if (!b || b->_content_traits != KT || n < 1 || *(void **) (b + 1)) return false; break;
 		}
+		if (how == PROBE) return true;
 		nontriv = false;
-		if (o.code == ARM) { arm = o.a; ++fails_used; return true; }
-		std::string opbase = code_name[o.code];
-		std::string desc = opname(opi) + fmt(" [%s elements; handle h%d: %s, %ld element(s), capacity %zu]", kind_name[kind], h, stdetail(h).c_str(), n, capel);
-		r.hint(opbase.c_str());
+		if (o.code == ARM) { arm = o.a; ++fails_used; if (how == RUN) refresh(); return true; }
+		const char *opbase_c = code_name[o.code];
+		std::string predetail = how == RUN ? stdetail(h) : std::string();
+		r.hint(opbase_c);
 		// ---- execute
 		g_cbgroup.clear(); g_cbdetail.clear(); asan_error();
 		g_calls = 0; g_failed = 0; g_events = 0; g_made = g_copied = g_destroyed = 0;
@@ -613,12 +620,15 @@ struct BSys {
 			break; }
 		}
 		g_active = false; g_arm = 0;
+		if (how == QUIET) return true;
 		// ---- oracle
 		std::string g, d;
 		bool ok = oracle(g, d);
 		if (g_failed) ac += ",ctor-fail";
+		std::string opbase = opbase_c;
 		if (!ok) {
 			violated = true;
+			std::string desc = opname(opi) + fmt(" [%s elements; handle h%d: %s, %ld element(s), capacity %zu]", kind_name[kind], h, predetail.c_str(), n, capel);
 			r.violation(opbase + "|" + kind_name[kind] + "," + st + "|" + ac + "|" + coarse(g), desc + ": [" + g + "] " + d + (g_failed ? fmt(" (%d injected constructor failure(s))", g_failed) : std::string()));
 			return false;
 		}
@@ -727,7 +737,7 @@ struct CSys {
 	size_t lbase;
 	int fails_used, arm;
 	bool violated, torn, counting, nontriv;
-	std::string lastcls;
+	std::string lastcls[2];
 	static std::vector<OpDef> ops;
 	// handles (exactly one pair is used)
 	mpt::unique_array<Elem> *ua[2]; mpt::typed_array<Elem> *ta[2];
@@ -925,6 +935,7 @@ struct CSys {
 		if (asan_error()) { g = "asan"; d = "AddressSanitizer reported an invalid access inside the operation"; return false; }
 		Scan sc; sc.nblocks = 0; sc.tok[0] = sc.tok[1] = 0;
 		size_t nbuf = 0;
+		std::string newcls[2];
 		const mpt::buffer *b0 = torn ? 0 : buf(0), *b1 = torn ? 0 : buf(1);
 		for (int h = 0; h < 2; ++h) {
 			const mpt::buffer *b = h ? b1 : b0;
@@ -933,8 +944,9 @@ struct CSys {
 			++nbuf;
 			uintptr_t holders = 1 + (b0 == b1 ? 1 : 0);
 			if (alloc_refs(b) != holders) { g = "holder-count"; d = fmt("buffer has %zu holder(s) but its reference count is %zu", (size_t) holders, (size_t) alloc_refs(b)); return false; }
-			sc.cls += fmt("|b%d:", h);
+			sc.cls.clear();
 			scan(b, sc);
+			newcls[h] = sc.cls;
 			if (asan_error()) { g = "asan"; d = "reading the buffer content faults"; return false; }
 		}
 		if (!sc.g.empty()) { g = sc.g; d = sc.d; return false; }
@@ -946,20 +958,23 @@ struct CSys {
 		}
 		size_t live = ledger_live() - lbase;
 		if (live != nbuf + sc.nblocks) { g = live > nbuf + sc.nblocks ? "leak" : "missing-block"; d = fmt("%zu library allocation(s) live, reachable: %zu buffer(s) + %zu element-owned block(s)", live, nbuf, sc.nblocks); return false; }
-		lastcls = sc.cls;
+		lastcls[0] = newcls[0]; lastcls[1] = newcls[1];
 		return true;
 	}
 	std::string canon()
 	{
-		const mpt::buffer *b0 = buf(0), *b1 = buf(1);
-		std::string s = fmt("arm=%d fails=%d same=%d", arm, fails_used, real(b0) && b0 == b1);
+		const mpt::buffer *bb[2] = { buf(0), buf(1) };
+		std::string s = fmt("arm=%d fails=%d ", arm, fails_used), hs[2];
+		bool same = real(bb[0]) && bb[0] == bb[1];
 		for (int h = 0; h < 2; ++h) {
-			const mpt::buffer *b = h ? b1 : b0;
-			if (!real(b)) { s += fmt(" h%d:-", h); continue; }
-			s += fmt(" h%d:size=%zu,used=%zu,f=%x", h, b->_size, b->_used, (unsigned) b->get_flags());
+			const mpt::buffer *b = bb[h];
+			if (!real(b)) { hs[h] = "-"; continue; }
+			hs[h] = fmt("size=%zu,used=%zu,f=%x:", b->_size, b->_used, (unsigned) b->get_flags()) + lastcls[same ? 0 : h];
 		}
-		return s + " " + lastcls;
+		if (same) return s + "both{" + hs[0] + "}";
+		return s + (hs[0] <= hs[1] ? "{" + hs[0] + "} {" + hs[1] + "}" : "{" + hs[1] + "} {" + hs[0] + "}");
 	}
+	bool refresh() { std::string g, d; g_cbgroup.clear(); asan_error(); return oracle(g, d); }
 	template <class A> bool generic_op(A *a, A *other, const OpDef &o, long n, size_t capel, bool &refused)
 	{
 		switch (o.code) {
@@ -971,7 +986,7 @@ struct CSys {
 		}
 		return false;
 	}
-	bool apply(int opi)
+	bool apply(int opi, int how = RUN)
 	{
 		const OpDef &o = ops[opi];
 		int h = o.h;
@@ -991,12 +1006,12 @@ struct CSys {
 		case C_RESERVE: if (o.a == 1 && (!real(b) || b->_size > 64)) return false; if (o.a == 0 && n + 1 > maxe) return false; ac = o.a == 0 ? "N+1" : (o.a == 1 ? "grow" : "negative"); break;
 		case C_ASSIGN: if (!real(buf(1 - h))) return false; break;
 		case C_RELEASE: case C_DETACH: case C_CLEAR: case C_COMPACT: if (!real(b)) return false; break;
-		case C_ARM: if (arm || fails_used >= 2) return false; arm = o.a; ++fails_used; return true;
+		case C_ARM: if (arm || fails_used >= 2) return false; if (how != PROBE) { arm = o.a; ++fails_used; if (how == RUN) refresh(); } return true;
 		case C_APPEND: if (n + 1 > maxe) return false; ac = std::string(o.a ? "no-instance" : "instance") + (o.b == 2 ? ",long-name" : (o.b == 1 ? ",short-name" : ",no-name")); break;
 		case C_HOLE: if (apos < 0 || apos >= n || !*(void **) ((uint8_t *) (b + 1) + apos * es)) return false; break;
 		}
+		if (how == PROBE) return true;
 		std::string opbase = ccode_name[o.code];
-		std::string desc = opname(opi) + fmt(" [%s; handle h%d: %s, %ld element(s), capacity %zu]", mode_name(mode), h, st.c_str(), n, capel);
 		std::string hint = std::string(mode_name(mode)) + "::" + opbase;
 		r.hint(hint.c_str());
 		g_cbgroup.clear(); g_cbdetail.clear(); asan_error();
@@ -1038,11 +1053,13 @@ struct CSys {
 		case C_HOLE: LIB((ia[h]->get(pos)->set_instance(0), 0)); break;
 		}
 		g_active = false; g_arm = 0;
+		if (how == QUIET) return true;
 		std::string g, d;
 		bool ok = oracle(g, d);
 		if (g_failed) ac += ",ctor-fail";
 		if (!ok) {
 			violated = true;
+			std::string desc = opname(opi) + fmt(" [%s; handle h%d: %s, %ld element(s), capacity %zu]", mode_name(mode), h, st.c_str(), n, capel);
 			r.violation(std::string(mode_name(mode)) + "::" + opbase + "|" + st + "|" + ac + "|" + coarse(g), desc + ": [" + g + "] " + d + (g_failed ? fmt(" (%d injected constructor failure(s))", g_failed) : std::string()));
 			return false;
 		}
@@ -1101,31 +1118,43 @@ static void bfs(Run &r, Make make, int depth)
 		Node n = frontier.front(); frontier.pop_front();
 		if ((int) n.hist.size() - 1 >= depth) continue;
 		if (r.expired()) break;
-		for (int op = 0; op < nops; ++op) {
-			Vec v = n.hist; v.push_back(op);
-			if (!r.enter(v, "")) continue;
+		// one system replays the (already verified) prefix and tells which letters are enabled in this state
+		auto prefix = [&](bool verify) -> S * {
 			S *s = make();
 			bool ok = !s->violated;
-			for (size_t i = 1; i < n.hist.size() && ok; ++i) ok = s->apply((int) n.hist[i]);
-			if (!ok || !(hash128(s->canon()) == n.h)) {
-				r.violation("ENGINE|nondeterministic-replay", "history prefix did not reproduce its canonical state");
-				r.incomplete("nondeterministic replay");
-				delete s;
-				return;
-			}
-			s->counting = true;
-			if (!s->apply(op)) { if (s->violated) ++r.transitions; delete s; continue; }
-			++r.transitions;
-			if (s->nontriv) ++nontrivial;
-			Hash128 h = hash128(s->canon());
-			bool fresh = seen.insert(h).second;
-			if (fresh) {
-				if (r.samples.size() < 4 && v.size() >= 4) { std::string t; S *p = s; for (size_t i = 1; i < v.size(); ++i) t += (i > 1 ? " ; " : "") + p->opname((int) v[i]); r.sample(t); }
-				// every new state is also torn down completely (checked): nothing may survive the last handle
-				if (s->teardown(s->opbase(op))) { frontier.push_back(Node{v, h}); ++r.states; }
-			}
-			delete s;
+			for (size_t i = 1; i < n.hist.size() && ok; ++i) ok = s->apply((int) n.hist[i], QUIET);
+			if (ok && verify) { bool rf = s->refresh(); ok = rf && hash128(s->canon()) == n.h; if (!ok && getenv("C05_DEBUG")) { FILE *f = fopen("/tmp/c05dbg.txt", "a"); fprintf(f, "DEBUG refresh=%d canon=%s vec=%s cb=%s\n", rf, s->canon().c_str(), vec_str(n.hist).c_str(), g_cbgroup.c_str()); fclose(f); } }
+			if (!ok) { delete s; return 0; }
+			return s;
+		};
+		r.enter(n.hist, "");
+		S *s = prefix(true);
+		if (!s) {
+			r.violation("ENGINE|nondeterministic-replay", "history prefix did not reproduce its canonical state");
+			r.incomplete("nondeterministic replay");
+			return;
 		}
+		std::vector<int> en;
+		for (int op = 0; op < nops; ++op) if (s->apply(op, PROBE)) en.push_back(op);
+		for (size_t k = 0; k < en.size(); ++k) {
+			int op = en[k];
+			Vec v = n.hist; v.push_back(op);
+			if (!r.enter(v, "")) continue;
+			if (!s && !(s = prefix(false))) { r.violation("ENGINE|nondeterministic-replay", "history prefix could not be replayed"); r.incomplete("nondeterministic replay"); return; }
+			s->counting = true;
+			++r.transitions;
+			if (s->apply(op, RUN)) {
+				if (s->nontriv) ++nontrivial;
+				Hash128 h = hash128(s->canon());
+				if (seen.insert(h).second) {
+					if (r.samples.size() < 4 && v.size() >= 4) { std::string t; for (size_t i = 1; i < v.size(); ++i) t += (i > 1 ? " ; " : "") + s->opname((int) v[i]); r.sample(t); }
+					// every new state is also torn down completely (checked): nothing may survive the last handle
+					if (s->teardown(s->opbase(op))) { frontier.push_back(Node{v, h}); ++r.states; }
+				}
+			}
+			delete s; s = 0;
+		}
+		delete s;
 	}
 	r.count("nontrivial", nontrivial);
 }
